@@ -620,6 +620,25 @@ class Gen:
         tv.order_total = bool(total)
         self.stmts.append(dict(id=tv.tid, op="arrange", src=src.tid, by=keys))
         self.register(tv)
+        if r.random() < 0.3:
+            # a second arrange on top that repeats the first key with the opposite markers: the later
+            # arrange takes priority, the earlier order (still total, the sort is stable) breaks ties
+            markers = ("descending", "ascending", "nulls_first", "nulls_last")
+            base, seen = keys[0], []
+            while isinstance(base, dict) and base.get("fn") in markers:
+                seen.append(base["fn"])
+                base = base["args"][0]
+            e = base if "descending" in seen else self.fn("descending", base)
+            if "nulls_first" in seen:
+                e = self.fn("nulls_last", e)
+            elif "nulls_last" in seen:
+                e = self.fn("nulls_first", e)
+            tv2 = self.derive(tv)
+            tv2.order_total = tv.order_total
+            self.stmts.append(dict(id=tv2.tid, op="arrange", src=tv.tid, by=[e]))
+            self.register(tv2)
+            self.features.add("arrange_restacked")
+            return tv2
         return tv
 
     def v_slice(self, src: TV):
@@ -869,7 +888,7 @@ PROFILES = {
     "general": dict(mutate=5, mutate_window=3, filter=4, select=2, drop=1, rename=2, arrange=3, slice=2, group_by=3, ungroup=1,
                     summarize=3, alias=2, alias_keep=1, join=2, union=1),
     "rowlevel": dict(mutate=6, filter=4, select=3, drop=2, rename=3, arrange=3, slice=3, group_by=1, ungroup=1, alias=1, alias_keep=1),
-    "agg": dict(mutate=3, mutate_window=2, filter=3, select=1, rename=1, arrange=2, group_by=5, ungroup=1, summarize=6, alias=2),
+    "agg": dict(mutate=3, mutate_window=2, filter=3, select=1, rename=1, arrange=3, slice=2, group_by=5, ungroup=1, summarize=6, alias=2),
     "window": dict(mutate=2, mutate_window=6, filter=3, select=2, rename=1, arrange=3, slice=2, group_by=3, ungroup=2, alias=2),
     "join": dict(mutate=3, filter=3, select=2, rename=2, arrange=1, join=6, alias=2, union=2, mutate_window=1, summarize=1, group_by=1),
     "union": dict(mutate=3, filter=3, select=2, drop=1, rename=2, arrange=1, slice=1, union=6, alias=1),
@@ -877,11 +896,11 @@ PROFILES = {
 }
 
 
-def gen_program(seed: int, profile="general", n_verbs=None, max_rows=10, exports="last") -> tuple[dict, dict]:
+def gen_program(seed: int, profile="general", n_verbs=None, max_rows=10, exports="last", _ret_gen=False, _weights=None) -> tuple[dict, dict]:
     g = Gen(seed, max_rows=max_rows, profile=profile)
     r = g.rng
-    weights = PROFILES[profile]
-    n_verbs = n_verbs or r.randint(2, 7)
+    weights = _weights or PROFILES[profile]
+    n_verbs = r.randint(2, 7) if n_verbs is None else n_verbs
     cur = g.add_source("src0")
     others = []
     verbs = list(weights)
@@ -950,6 +969,8 @@ def gen_program(seed: int, profile="general", n_verbs=None, max_rows=10, exports
             made += 1
             if exports == "all":
                 g.export(cur)
+    if _ret_gen:
+        return g, cur
     if exports in ("last", "all"):
         g.export(cur)
     p = g.program()
@@ -1054,4 +1075,30 @@ _orig_gen_program = gen_program
 def gen_program(seed: int, profile="general", **kw):  # noqa: F811
     if profile.startswith("scen_"):
         return _scenario(seed, profile)
+    if profile.startswith("equiv_"):
+        from . import equiv
+
+        return equiv.gen_equiv(seed, profile)
     return _orig_gen_program(seed, profile, **kw)
+
+
+def vary_tables(program: dict, seed: int, nrows_choices=(3, 5, 8, 12)) -> dict:
+    """the same statements over freshly drawn table contents (directed search for a failing input once
+    a correspondence has broken): `id` stays a unique non-null key, a column keeps its dtype and gets
+    nulls only if it had some (the statements' nulls markers were chosen from that)"""
+    g = Gen(seed, max_rows=12, profile="general")
+    r = g.rng
+    out = copy.deepcopy(program)
+    cls_of = {"int64": "int", "float64": "float", "bool": "bool", "string": "string"}
+    for t in out["tables"]:
+        n = r.choice(nrows_choices)
+        for c in t["cols"]:
+            vals = c["vals"]
+            uniq = c["name"] == "id" or (len(vals) > 1 and None not in vals and len(set(map(str, vals))) == len(vals) and c["dtype"] == "int64")
+            if uniq:
+                c["vals"] = g.shuffled(list(range(1, n + 1)))
+            else:
+                nd = 0.3 if any(v is None for v in vals) else 0.0
+                c["vals"] = g.gen_values(cls_of.get(c["dtype"], "int"), n, nd, dup_heavy=r.random() < 0.6)
+    out["seed"] = f"{program.get('seed')}/v{seed}"
+    return out
